@@ -530,7 +530,52 @@ func vC03CurrentList(r *vRand, pool []vKeyPair) {
 }
 
 // every way of not being an allow-listed Ed25519 peer must yield no session and no dispatch
+// one client identity, two servers with different keys (both list the client): every dial accepts exactly the server key it
+// was given - whatever the same process dialled before with the same identity
+func vC03TwoServers(r *vRand, pool []vKeyPair) {
+	s1, s2, ck := pool[3], pool[4], pool[1]
+	a := vStartLibServer(s1, []ed25519.PublicKey{ck.Pub}, true)
+	b := vStartLibServer(s2, []ed25519.PublicKey{ck.Pub}, true)
+	defer vStop(a.S, 5*time.Second)
+	defer vStop(b.S, 5*time.Second)
+	type dial struct {
+		name  string
+		ls    *vLibServer
+		given vKeyPair
+		want  bool
+	}
+	var steps []string
+	fail := ""
+	for _, signer := range []bool{false, true} {
+		for _, d := range []dial{{"first-server-with-its-key", a, s1, true}, {"second-server-with-its-key", b, s2, true},
+			{"second-server-with-the-key-of-the-first", b, s1, false}, {"first-server-with-the-key-of-the-second", a, s2, false}, {"first-server-with-its-key-again", a, s1, true}} {
+			ctx, cancel := context.WithTimeout(context.Background(), 1200*time.Millisecond)
+			cc, err := vDialLibAt(ctx, d.ls.Addr, ck, d.given.Pub, 0, signer, WithBlock())
+			ready := err == nil
+			served := false
+			if ready {
+				cctx, cc2 := context.WithTimeout(context.Background(), time.Second)
+				served = cc.Invoke(cctx, "Echo", vAppMsg("two", nil, ""), vAppMsg("", nil, "")) == nil
+				cc2()
+				vClose(cc, 3*time.Second)
+			}
+			cancel()
+			vWaitUntil(2*time.Second, func() bool { return d.ls.S.OpenConnections() == 0 })
+			steps = append(steps, fmt.Sprintf("%s/signer=%v:ready=%v,served=%v", d.name, signer, ready, served))
+			if fail == "" && (ready != d.want || served != d.want) {
+				if d.want {
+					fail = "auth-e2e/client-refuses-the-server-it-was-given/" + d.name
+				} else {
+					fail = "auth-e2e/client-accepts-a-server-it-was-not-given/" + d.name
+				}
+			}
+		}
+	}
+	vEmit(vCase{Class: "e2e/one-identity-two-servers", Fail: fail, Sig: "two-servers", Info: map[string]interface{}{"steps": steps, "outcome": strings.Join(steps, " ")}})
+}
+
 func vC03EndToEnd(t *testing.T, r *vRand, pool []vKeyPair, ecKey *ecdsa.PrivateKey) {
+	vC03TwoServers(r, pool)
 	skey, good, bad := pool[0], pool[1], pool[2]
 	for _, entry := range []string{"WithCreds", "WithSigner"} {
 		lis, _ := net.Listen("tcp", "127.0.0.1:0")
